@@ -1,4 +1,5 @@
 import GopatchModel.Spec.Sound
+import GopatchModel.Spec.MatchInv
 import GopatchModel.FileM
 namespace Gopatch.C03
 open Gopatch
@@ -105,5 +106,308 @@ theorem scalars_verbatim (mt : Meta) (assoc : List (Nat × Nat)) (d : Data) (fb 
     replaceV mt assoc (.str s) d fb = .ok (.str s) ∧ replaceV mt assoc (.int n) d fb = .ok (.int n) ∧
     replaceV mt assoc (.bool b) d fb = .ok (.bool b) := by
   simp [replaceV]
+
+/-! ### the replacement is an instance of the '+' pattern under the site's own substitution -/
+
+/-- what matching guarantees about the data store it returns: a metavariable stands for non-nil code of its
+declared kind; a recorded loop header knows where its body goes -/
+def GoodData (mt : Meta) (d : Data) : Prop :=
+  (∀ n c k, d.lookMv n = some c → mt.look n = some k → kindOK k c = true ∧ c.isNil = false) ∧
+  (∀ k fd, d.lookFor k = some fd → bodyIdxOf fd.ty = some fd.bodyIdx ∧ fd.bodyIdx < fd.fields.length)
+
+mutual
+/-- every elision of the '+' pattern has a counterpart that captured a run at this site -/
+def dotsBound (assoc : List (Nat × Nat)) (d : Data) : V → Bool
+  | .iface _ v => dotsBound assoc d v
+  | .slice e vs => if dotsElem e then dotsBoundSeq assoc d e vs else dotsBoundL assoc d vs
+  | .ptr _ _ fs => dotsBoundL assoc d fs
+  | _ => true
+def dotsBoundL (assoc : List (Nat × Nat)) (d : Data) : List V → Bool
+  | [] => true
+  | v :: vs => dotsBound assoc d v && dotsBoundL assoc d vs
+def dotsBoundSeq (assoc : List (Nat × Nat)) (d : Data) (e : String) : List V → Bool
+  | [] => true
+  | p :: ps =>
+      (match dotsKeyOf e p with
+       | some k => ((assocLook assoc k).bind d.lookDots).isSome
+       | none => dotsBound assoc d p) && dotsBoundSeq assoc d e ps
+end
+
+theorem kindOK_copy (k : Kind) (c : V) (h : kindOK k c = true) (hn : c.isNil = false) :
+    kindOK k (copyV true c) = true ∧ (copyV true c).isNil = false := by
+  cases c with
+  | ptr t id fs =>
+    have hi : ignoredPtr t = false := by
+      cases k with
+      | ident =>
+        simp only [kindOK] at h
+        have : t = "ast.Ident" := by simpa using h
+        subst this; decide
+      | expr =>
+        simp only [kindOK] at h
+        by_cases hig : ignoredPtr t = true
+        · simp only [ignoredPtr, Bool.or_eq_true, beq_iff_eq] at hig
+          rcases hig with rfl | rfl
+          · exact absurd h (by decide)
+          · exact absurd h (by decide)
+        · simpa using hig
+    rw [copyV.eq_def]
+    simp only [hi, Bool.false_eq_true, ↓reduceIte]
+    refine ⟨?_, by simp [V.isNil]⟩
+    cases k <;> simpa [kindOK] using h
+  | nilP t => simp [V.isNil] at hn
+  | pos _ _ => cases k <;> simp [kindOK] at h
+  | str _ => cases k <;> simp [kindOK] at h
+  | int _ => cases k <;> simp [kindOK] at h
+  | bool _ => cases k <;> simp [kindOK] at h
+  | nilI _ => cases k <;> simp [kindOK] at h
+  | nilS _ => cases k <;> simp [kindOK] at h
+  | iface _ _ => cases k <;> simp [kindOK] at h
+  | slice _ _ => cases k <;> simp [kindOK] at h
+
+theorem set_getElem? {α} (l : List α) (i : Nat) (x : α) (h : i < l.length) : (l.set i x)[i]? = some x := by
+  simp [h]
+
+mutual
+/-- **The replacement is the '+' pattern instantiated with the site's bindings.** Whatever `Replace` generates for a
+site is an instance (`Inst`: the same tree up to positions, comments and resolved objects) of the '+' pattern under
+every substitution that agrees with the site's data store: each metavariable stands for (a copy identical to) the code
+it was bound to at this site, everything else is the pattern's own syntax. -/
+theorem replaceV_inst (mt : Meta) (assoc : List (Nat × Nat)) (σ : Subst) : ∀ (p : V) (d : Data) (r : V),
+    GoodData mt d → Ext d σ → dotsBound assoc d p = true → replaceV mt assoc p d true = .ok r → Inst mt σ p r
+  | .pos pv pk, d, r, _, _, _, h => by
+    unfold replaceV at h
+    cases pv with
+    | false => simp at h; subst h; exact Inst.pos _ _ _
+    | true =>
+      simp only [Bool.not_true, Bool.false_eq_true, ↓reduceIte] at h
+      split at h <;> (simp at h; subst h; exact Inst.pos _ _ _)
+  | .str s, d, r, _, _, _, h => by simp [replaceV] at h; subst h; exact Inst.str _
+  | .int n, d, r, _, _, _, h => by simp [replaceV] at h; subst h; exact Inst.int _
+  | .bool b, d, r, _, _, _, h => by simp [replaceV] at h; subst h; exact Inst.bool _
+  | .nilP t, d, r, _, _, _, h => by simp [replaceV] at h; subst h; exact Inst.nilP _ _ rfl
+  | .nilI i, d, r, _, _, _, h => by simp [replaceV] at h; subst h; exact Inst.nilI _ _ rfl
+  | .nilS e, d, r, _, _, _, h => by
+    simp [replaceV] at h; subst h
+    by_cases he : dotsElem e = true
+    · exact Inst.nilSNil _ _ he
+    · exact Inst.nilS _ _ (by simpa using he) rfl
+  | .iface i pv, d, r, hg, hx, hb, h => by
+    unfold replaceV at h
+    simp only [dotsBound] at hb
+    cases hr : replaceV mt assoc pv d true with
+    | error e => simp [hr, Except.bind] at h
+    | ok x =>
+      simp only [hr, Except.bind] at h
+      split at h
+      · simp at h; subst h
+        exact Inst.iface _ _ _ _ (replaceV_inst mt assoc σ pv d x hg hx hb hr)
+      · simp at h
+  | .slice e ps, d, r, hg, hx, hb, h => by
+    unfold replaceV at h
+    simp only [dotsBound] at hb
+    by_cases he : dotsElem e = true
+    · simp only [he, ↓reduceIte] at h hb
+      cases hr : replaceSeq mt assoc e ps d true with
+      | error e' => simp [hr, Except.bind] at h
+      | ok x =>
+        have ih := replaceSeq_inst mt assoc σ e ps d x.1 x.2 hg hx hb (by rw [hr])
+        simp only [hr, Except.bind] at h
+        split at h
+        · rename_i hc
+          simp at h; subst h
+          simp only [Bool.and_eq_true, List.isEmpty_iff] at hc
+          rw [hc.2] at ih
+          exact Inst.sliceDotsNil _ _ _ he ih
+        · simp at h; subst h
+          exact Inst.sliceDots _ _ _ _ he ih
+    · have he' : dotsElem e = false := by simpa using he
+      simp only [he', Bool.false_eq_true, ↓reduceIte] at h hb
+      cases hr : replaceVs mt assoc ps d true with
+      | error e' => simp [hr, Except.bind] at h
+      | ok items =>
+        simp only [hr, Except.bind] at h
+        simp at h; subst h
+        exact Inst.slice _ _ _ _ he' (replaceVs_inst mt assoc σ ps d items hg hx hb hr)
+  | .ptr t id fs, d, r, hg, hx, hb, h => by
+    unfold replaceV at h
+    simp only [dotsBound] at hb
+    by_cases hi : ignoredPtr t = true
+    · simp only [hi, ↓reduceIte] at h
+      simp at h; subst h
+      exact Inst.ignoredPtr _ _ _ _ hi
+    · simp only [hi, Bool.false_eq_true, ↓reduceIte] at h
+      by_cases hd : (t == "pgo.Dots") = true
+      · simp [hd] at h
+      · simp only [hd, Bool.false_eq_true, ↓reduceIte] at h
+        by_cases hm : (t == "ast.Ident" && (mt.look (identName fs)).isSome) = true
+        · simp only [hm, ↓reduceIte] at h
+          simp only [Bool.and_eq_true, beq_iff_eq] at hm
+          obtain ⟨rfl, hsome⟩ := hm
+          obtain ⟨k, hk⟩ := Option.isSome_iff_exists.1 hsome
+          cases hl : d.lookMv (identName fs) with
+          | none => simp [hl] at h
+          | some c =>
+            simp only [hl] at h
+            simp at h; subst h
+            have hgc := hg.1 _ c k hl hk
+            have hcopy := kindOK_copy k c hgc.1 hgc.2
+            exact Inst.metavar id fs k _ c hk hcopy.1 hcopy.2 (hx _ c hl) (copy_is_identical c)
+        · simp only [hm, Bool.false_eq_true, ↓reduceIte] at h
+          have hident : t = "ast.Ident" → mt.look (identName fs) = none := by
+            intro ht
+            subst ht
+            simp only [beq_self_eq_true, Bool.true_and, Bool.not_eq_true, Option.isSome_eq_false_iff, Option.isNone_iff_eq_none] at hm
+            exact hm
+          cases hf : forDotsKeyOf t fs with
+          | some k =>
+            simp only [hf] at h
+            cases hl : (assocLook assoc k).bind d.lookFor with
+            | none => simp [hl] at h
+            | some fd =>
+              simp only [hl] at h
+              cases hr : replaceNth mt assoc fs 4 d true with
+              | error e' => simp [hr, Except.bind] at h
+              | ok body =>
+                simp only [hr, Except.bind] at h
+                simp at h; subst h
+                obtain ⟨k', hk1, hk2⟩ : ∃ k', assocLook assoc k = some k' ∧ d.lookFor k' = some fd := by
+                  cases ha : assocLook assoc k with
+                  | none => simp [ha] at hl
+                  | some k' => exact ⟨k', rfl, by simpa [ha] using hl⟩
+                have hfd := hg.2 k' fd hk2
+                exact Inst.forDots t id fs k fd.ty 0 _ fd.bodyIdx body hf hfd.1 (set_getElem? _ _ _ hfd.2)
+                  (replaceNth_inst mt assoc σ fs 4 d body hg hx hb hr)
+          | none =>
+            simp only [hf] at h
+            cases hr : replaceVs mt assoc fs d true with
+            | error e' => simp [hr, Except.bind] at h
+            | ok fs' =>
+              simp only [hr, Except.bind] at h
+              simp at h; subst h
+              exact Inst.ptr t id 0 fs fs' hident hf (replaceVs_inst mt assoc σ fs d fs' hg hx hb hr)
+theorem replaceVs_inst (mt : Meta) (assoc : List (Nat × Nat)) (σ : Subst) : ∀ (ps : List V) (d : Data) (rs : List V),
+    GoodData mt d → Ext d σ → dotsBoundL assoc d ps = true → replaceVs mt assoc ps d true = .ok rs → InstList mt σ ps rs
+  | [], d, rs, _, _, _, h => by simp [replaceVs] at h; subst h; exact InstList.nil
+  | p :: ps, d, rs, hg, hx, hb, h => by
+    unfold replaceVs at h
+    simp only [dotsBoundL, Bool.and_eq_true] at hb
+    cases hr : replaceV mt assoc p d true with
+    | error e => simp [hr, Except.bind] at h
+    | ok x =>
+      simp only [hr, Except.bind] at h
+      split at h
+      · simp at h
+      · cases hr2 : replaceVs mt assoc ps d true with
+        | error e => simp [hr2, Except.bind] at h
+        | ok xs =>
+          simp only [hr2] at h
+          simp at h; subst h
+          exact InstList.cons _ _ _ _ (replaceV_inst mt assoc σ p d x hg hx hb.1 hr) (replaceVs_inst mt assoc σ ps d xs hg hx hb.2 hr2)
+theorem replaceSeq_inst (mt : Meta) (assoc : List (Nat × Nat)) (σ : Subst) (e : String) : ∀ (ps : List V) (d : Data) (rs : List V) (b : Bool),
+    GoodData mt d → Ext d σ → dotsBoundSeq assoc d e ps = true → replaceSeq mt assoc e ps d true = .ok (rs, b) → InstSeq mt σ e ps rs
+  | [], d, rs, b, _, _, _, h => by
+    simp [replaceSeq] at h
+    obtain ⟨h1, _⟩ := h
+    subst h1
+    exact InstSeq.nil _
+  | p :: ps, d, rs, b, hg, hx, hb, h => by
+    unfold replaceSeq at h
+    simp only [dotsBoundSeq, Bool.and_eq_true] at hb
+    cases hk : dotsKeyOf e p with
+    | some k =>
+      simp only [hk] at h hb
+      split at h
+      · simp at h
+      · have hsome : ((assocLook assoc k).bind d.lookDots).isSome = true := hb.1
+        rw [hsome] at h
+        cases hr : replaceSeq mt assoc e ps d true with
+        | error e' => simp [hr, Except.bind] at h
+        | ok x =>
+          simp only [hr, Except.bind] at h
+          simp at h
+          rw [← h.1]
+          exact InstSeq.dots e p k ps _ x.1 hk (replaceSeq_inst mt assoc σ e ps d x.1 x.2 hg hx hb.2 (by rw [hr]))
+    | none =>
+      simp only [hk] at h hb
+      cases hr : replaceV mt assoc p d true with
+      | error e' => simp [hr, Except.bind] at h
+      | ok x =>
+        simp only [hr, Except.bind] at h
+        split at h
+        · simp at h
+        · cases hr2 : replaceSeq mt assoc e ps d true with
+          | error e' => simp [hr2, Except.bind] at h
+          | ok y =>
+            simp only [hr2] at h
+            simp at h
+            rw [← h.1]
+            exact InstSeq.elem e p x ps y.1 hk (replaceV_inst mt assoc σ p d x hg hx hb.1 hr)
+              (replaceSeq_inst mt assoc σ e ps d y.1 y.2 hg hx hb.2 (by rw [hr2]))
+theorem replaceNth_inst (mt : Meta) (assoc : List (Nat × Nat)) (σ : Subst) : ∀ (ps : List V) (i : Nat) (d : Data) (r : V),
+    GoodData mt d → Ext d σ → dotsBoundL assoc d ps = true → replaceNth mt assoc ps i d true = .ok r → InstNth mt σ ps i r
+  | [], i, d, r, _, _, _, h => by simp [replaceNth] at h
+  | p :: ps, 0, d, r, hg, hx, hb, h => by
+    simp only [replaceNth] at h
+    simp only [dotsBoundL, Bool.and_eq_true] at hb
+    exact InstNth.here _ _ _ (replaceV_inst mt assoc σ p d r hg hx hb.1 h)
+  | p :: ps, i + 1, d, r, hg, hx, hb, h => by
+    simp only [replaceNth] at h
+    simp only [dotsBoundL, Bool.and_eq_true] at hb
+    exact InstNth.there _ _ _ _ (replaceNth_inst mt assoc σ ps i d r hg hx hb.2 h)
+end
+
+/-- everything the matcher records keeps the data store good -/
+theorem goodData_pushInv (mt : Meta) : PushInv mt (GoodData mt) where
+  pos := fun d k h => h
+  dots := fun d k run h => h
+  mv := by
+    intro d name g k h hk hok hnil hnone
+    refine ⟨?_, h.2⟩
+    intro n c k' hl hk'
+    simp only [Data.lookMv, Data.pushMv, List.lookup_cons] at hl
+    by_cases hn : (n == name) = true
+    · simp only [hn] at hl
+      cases hl
+      have : n = name := by simpa using hn
+      subst this
+      rw [hk] at hk'; cases hk'
+      exact ⟨hok, hnil⟩
+    · have hn' : (n == name) = false := by simpa using hn
+      simp only [hn'] at hl
+      exact h.1 n c k' hl hk'
+  loop := by
+    intro d k t' bi gs gb h hbi hgb
+    refine ⟨h.1, ?_⟩
+    intro k' fd hl
+    simp only [Data.lookFor, Data.pushFor, List.lookup_cons] at hl
+    by_cases hk : (k' == k) = true
+    · simp only [hk] at hl
+      cases hl
+      refine ⟨hbi, ?_⟩
+      rcases Nat.lt_or_ge bi gs.length with h1 | h1
+      · exact h1
+      · rw [List.getElem?_eq_none h1] at hgb; cases hgb
+    · have hk' : (k' == k) = false := by simpa using hk
+      simp only [hk'] at hl
+      exact h.2 k' fd hl
+
+theorem goodData_empty (mt : Meta) : GoodData mt Data.empty := by
+  refine ⟨?_, ?_⟩
+  · intro n c k h; simp [Data.lookMv, Data.empty] at h
+  · intro k fd h; simp [Data.lookFor, Data.empty] at h
+
+/-- **The rewrite rule.** When the '-' pattern matches a piece of code, that code is an instance of the '-' pattern and
+whatever is generated from the '+' pattern at that site is an instance of the '+' pattern — under one and the same
+substitution, the site's bindings (`d'.mv`): every metavariable stands for the same code on both sides. (`dotsBound`: every
+elision of the '+' side has a counterpart; otherwise the fallback position of what follows is invalid.) -/
+theorem rewrite_rule (mt : Meta) (assoc : List (Nat × Nat)) (minus plus g r : V) (d' : Data)
+    (hm : matchV mt minus g Data.empty = some d')
+    (hb : dotsBound assoc d' plus = true)
+    (hr : replaceV mt assoc plus d' true = .ok r) :
+    Inst mt d'.mv minus g ∧ Inst mt d'.mv plus r := by
+  have hx : Ext d' d'.mv := fun n c h => h
+  have hg : GoodData mt d' := matchV_inv (goodData_pushInv mt) minus g Data.empty d' hm (goodData_empty mt)
+  exact ⟨(matchV_sound mt minus g Data.empty d' hm).2 d'.mv hx, replaceV_inst mt assoc d'.mv plus d' r hg hx hb hr⟩
 
 end Gopatch.C03
